@@ -345,7 +345,7 @@ def realistic_series(seed, n, p, kind=None):
     kind = kind or kinds[seed % len(kinds)]
     X = rng.standard_normal((n, p))
     t = np.arange(n)[:, None]
-    n_shifts = int(rng.integers(1, 5))
+    n_shifts = int(rng.integers(1, 5)) if kind not in ("ends_strong", "burst_short") or seed % 2 else 0
     for pos in sorted(int(v) for v in rng.integers(5, n - 5, size=n_shifts)):
         cols = rng.random(p) < 0.7
         cols[int(rng.integers(0, p))] = True
@@ -368,4 +368,10 @@ def realistic_series(seed, n, p, kind=None):
     elif kind == "variance":
         a = int(rng.integers(20, n - 20))
         X[a:] *= 3.0
+    elif kind == "ends_strong":  # start-up transient / end effect shorter than any minimum segment length
+        X[:2] += 20.0
+        X[-2:] -= 20.0
+    elif kind == "burst_short":  # strong bursts of 2 samples
+        for pos in (n // 3 - 1, (2 * n) // 3 + 1):
+            X[pos:pos + 2] += 15.0
     return X, kind
